@@ -52,6 +52,8 @@ impl Flusher {
 
         // Use async I/O for directory creation
         fs::create_dir_all(&segment_dir).await?;
+        #[cfg(feature = "verif-hooks")]
+        crate::verif_hooks::point("fr.dir_created", segment_id);
 
         // Move events out of the MemTable without cloning
         let table = self.memtable.take(); // BTreeMap<String, Vec<Event>> grouped by context_id
@@ -102,6 +104,8 @@ impl Flusher {
                 events,
             )
             .await?;
+            #[cfg(feature = "verif-hooks")]
+            crate::verif_hooks::point("fr.type_written", segment_id);
         }
 
         // Only append SegmentIndex entry if at least one event type had non-empty events
@@ -112,6 +116,8 @@ impl Flusher {
         if !non_empty_event_types.is_empty() {
             let uids =
                 Self::resolve_uids_with(&registry, non_empty_event_types.into_iter()).await?;
+            #[cfg(feature = "verif-hooks")]
+            crate::verif_hooks::point("fr.before_index", segment_id);
             SegmentIndexBuilder {
                 segment_id,
                 segment_dir: &segment_dir,
@@ -120,6 +126,8 @@ impl Flusher {
             }
             .add_segment_entry(None)
             .await?;
+            #[cfg(feature = "verif-hooks")]
+            crate::verif_hooks::point("fr.index_added", segment_id);
         } else {
             // No files were written, clean up empty directory
             // Use async I/O for directory removal
